@@ -176,6 +176,6 @@ fn observe(d: &mut Driver, rng: &mut Rng, script: u64, q: &mut Vec<(u64, u64, Ve
 }
 
 pub fn run(cfg: &RunCfg) -> Report {
-    let cases = cfg.cases(12_000, 400_000);
+    let cases = cfg.cases(80_000, 2_000_000);
     run_cases(cfg, 0, cases, Duration::from_secs(3600), |_c, rng, rep| run_history(rng, rep))
 }
